@@ -7,7 +7,7 @@ cd ${VERIF_HOME:-/verif}
 for m in $src/$id/m[0-9]; do
   [ -f $m/patch.diff ] || continue
   n=$(basename $m)
-  v=$(tools/seed_verify.sh $m | head -1)
+  v=$(tools/seed_verify.sh $m); v=$(echo "$v" | head -1)
   echo "$id-$tag$n verify: $v"
   case "$v" in
     apply=ok*passed*demo_clean=0\ demo_mut=1*) ;;
